@@ -200,6 +200,8 @@ class MerchantEngine:
                 if match:
                     lhs, rhs = match.groups()
                     try:
+                        # Validate now so a bad expression is rejected with its line number
+                        expr_parser.parse_expression(rhs)
                         if lhs.startswith('field.'):
                             # Field transform: field.description = regex_replace(...)
                             self.transforms.append((lhs, rhs))
